@@ -64,10 +64,10 @@ CLAIMS = {
     "C09": dict(
         text="Theorems C09.init_wellformed / step_wellformed / reachable_wellformed: the invariant Inv (cursor bounds, margins, dirty rows, nothing stored outside the grid, "
              "legal saved width) holds for a new screen and is preserved by every one of the 43 operations incl. draw (any Unicode width function), resize and DECCOLM, hence for "
-             "every reachable state by induction over the history; display() has exactly `lines` rows. The executable form (Dump.illFormed, incl. the colour-name clause) is "
-             "evaluated on every state dumped from the real crate in this run.",
-        technique=TECH, design="7 (C09)",
-        note="The colour clause (fg/bg is a documented name or hex string) is checked on the implementation's dumped states; its Lean proof is not yet part of Inv."),
+             "every reachable state by induction over the history; reachable_colours / step_colours: every cell, the cursor's rendition and every saved rendition have fg/bg that is a documented "
+             "colour name or a hex string (tables_ok on the regenerated tables, rgb_ok for the `{:02x}` formatting of any component); display() has exactly `lines` rows. "
+             "The executable form (Dump.illFormed, colour names written out independently of the tables) is evaluated on every state dumped from the real crate in this run.",
+        technique=TECH, design="7 (C09)"),
     "C13": dict(
         text="Theorem C13.C13_holds: ICH/DCH splice exactly min(n, columns-x) cells in the cursor row (absent/0 = 1), shifted cells travel whole (text + attributes), every other row, "
              "the cursor and settings unchanged; ich_then_dch: cells pushed across the edge do not come back; nothing_hidden: nothing is stored outside the grid afterwards. "
